@@ -70,7 +70,8 @@ def main():
         pick = allst if len(allst) <= 8 else rng.sample(allst, 6 if chk.tier == "quick" else 16)
         for st0 in pick:
             tasks.append({"sc": i, "st0": st0, "horizon": hz, "tuple_statuses": (len(tasks) % 5 == 0),
-                          "tmin": 2 if len(tasks) % 7 == 0 else 0})
+                          "tmin": 2 if len(tasks) % 7 == 0 else 0,
+                          "scale": (1.0, 1.0, 2.0 ** -40, 1.0, 2.0 ** 30)[len(tasks) % 5]})
     done = common.pool_run(contagion.run_scenario, tasks, lambda r: bool(r["problems"]))
     for t, r in done:
         chk.cov["evaluations"] += r["leaves"] + r["arr"]
